@@ -37,6 +37,7 @@ ASSUMPTIONS = [
     "unix only: src/sys/windows.rs read_line_pipe has the same shape as the shipped unix code and is not covered",
 ]
 EXTRA_COQ_TARGETS = ["proofs/ReadLineShippedProofs.vo"]
+CAN_RUN_WITHOUT_MODEL = True   # the oracle (text.split) does not need the model
 SIDE_OBLIGATIONS = ["rl_newline_10", "rl_keeps", "rl_growth_ge2", "rl_read_max_pos", "rl_read_max_le_cap"]
 
 KEY_DROP = "data-after-newline-dropped"
@@ -508,7 +509,7 @@ def shrink(env, case, budget=60):
 
 def case_json(case, res=None):
     d = {"text_hex": case["text"].hex() if len(case["text"]) <= 4096 else None,
-         "text_len": len(case["text"]), "sched": case["sched"][:200], "sched_len": len(case["sched"]),
+         "text_len": len(case["text"]), "sched": list(case["sched"]), "sched_len": len(case["sched"]),
          "k": case["k"], "style": case.get("style", "vars")}
     if d["text_hex"] is None:
         # long texts: keep them replayable without storing 100 KB of hex when they are periodic
@@ -556,11 +557,22 @@ def correspond(env, searching=False, model=True):
 
     shard = 250
     stopped_early = False
-    for s0 in range(0, n_cases, shard):
+    passes = [(s0, False) for s0 in range(0, n_cases, shard)]
+    if env.tier == "thorough":
+        # a quarter as many again on the release build (no debug assertions, optimised code)
+        passes += [(s0, True) for s0 in range(n_cases, n_cases + n_cases // 4, shard)]
+    release_cases = 0
+    for s0, release in passes:
         if time.time() > deadline and s0 > 0:
             stopped_early = True
             break
-        batch = corpus if s0 == 0 else []
+        if release and not RELEASE[0]:
+            ok, out = common.build_naija(release=True)
+            if not ok:
+                raise RuntimeError("naija release build failed: " + out[-2000:])
+        RELEASE[0] = release
+        release_cases += shard if release else 0
+        batch = list(corpus) if s0 == 0 or (release and s0 == n_cases) else []
         while len(batch) < shard:
             batch.append(gen_case(rng, env.tier))
         part = list(enumerate(batch, s0))
@@ -620,7 +632,7 @@ def correspond(env, searching=False, model=True):
                         key = classify(small, sres["log"]) or ("other:" + common.chash(small["text"].hex() + str(small["sched"]) + str(small["k"])))
                     if key not in seen_keys and len(failures) < 6:
                         seen_keys.add(key)
-                        failures.append({"key": key, "case": case_json(small, sres),
+                        failures.append({"key": key, "case": case_json(small, sres), "profile": "release" if release else "debug",
                                          "expected_lines_head": [x.decode("utf-8", "replace")[:80] for x in oracle_lines(small["text"], small["k"])[:8]],
                                          "observed": "rc=%s, stdout differs from the k pieces of the text split at newlines" % sres["rc"]
                                          if sres["rc"] == 0 else "rc=%s %s" % (sres["rc"], err_summary(sres["err"]))})
@@ -652,6 +664,7 @@ def correspond(env, searching=False, model=True):
         if len(failures) >= 6:
             break
 
+    RELEASE[0] = False
     # runs without the shim: real pipe with timed writes, and a plain file
     pipe_runs = pipe_bad = 0
     prng = rng
@@ -689,6 +702,7 @@ def correspond(env, searching=False, model=True):
     hist["inconclusive_timeouts"] = inconclusive
     hist["stopped_early_by_time_budget"] = stopped_early
     hist["corpus_cases"] = n_corpus
+    hist["profiles"] = {"debug": evaluations - release_cases, "release": release_cases}
     return {
         "evaluations": evaluations,
         "distinct_nontrivial": len(nontrivial),
@@ -717,6 +731,9 @@ def replay(env, payload):
         print("replay: no concrete case in this file (obligations: %s)" % payload.get("no_longer_checks"))
         return 1
     c = {"text": bytes.fromhex(hx), "sched": cj.get("sched", []), "k": cj["k"], "style": cj.get("style", "vars")}
+    if case.get("profile") == "release":
+        common.build_naija(release=True)
+        RELEASE[0] = True
     res = run_impl(env, 1, c)
     want = oracle_lines(c["text"], c["k"])
     print("text   : %r" % c["text"][:200])
